@@ -62,11 +62,17 @@ pub fn build(c: &Case, corp: &corpus::Corpus) -> Option<Sched> {
             }
             game.play(gen::choose_move(&game, &l, g.weighted, ch));
         }
-        while game.cur.legal_moves().is_empty() && !game.moves.is_empty() {
-            game.undo();
-        }
-        if game.cur.legal_moves().is_empty() {
-            continue;
+        // mostly positions with a legal move; a finished game (mate / stalemate) now and then:
+        // its go must still get exactly one bestmove line (content not judged) and must not
+        // disturb the following round
+        let keep_terminal = (*go_sel as usize + *act_sel as usize) % 4 == 0;
+        if !keep_terminal {
+            while game.cur.legal_moves().is_empty() && !game.moves.is_empty() {
+                game.undo();
+            }
+            if game.cur.legal_moves().is_empty() {
+                continue;
+            }
         }
         let go = match go_sel % 8 {
             0 | 1 | 2 => "go infinite".to_string(),
@@ -87,13 +93,18 @@ pub fn build(c: &Case, corp: &corpus::Corpus) -> Option<Sched> {
             10 => "delay:50".to_string(),
             _ => "none".to_string(),
         };
-        let action = match act_sel % 6 {
+        let mut action = match act_sel % 6 {
             0 | 1 | 2 => "stop",
             3 => "isready",
             4 => "position",
             _ => "none",
         }
         .to_string();
+        // a second go while the first search is still running (not protocol-conformant; its own
+        // fate is not judged, but the stop that follows must still end the running search)
+        if go == "go infinite" && (trig_sel + act_sel) % 5 == 0 {
+            action = "go".to_string();
+        }
         rounds.push(Round { position: position_command(&game.start, &game.moves_uci()), fen: game.cur.to_fen(), go, trigger, action });
     }
     if rounds.is_empty() {
@@ -135,6 +146,8 @@ pub fn run_sched(ctx: &Ctx, s: &Sched, rep: &mut Report) -> Result<(), Violation
     // every schedule point may sleep once or twice per search
     let slack = Duration::from_millis(4 * s.sleep_ms);
     let mut order: Vec<String> = vec![];
+    let mut optional_best = 0usize;
+    let mut seen_optional = 0usize;
     for (ri, r) in s.rounds.iter().enumerate() {
         rep.eval(1);
         let pos = Pos::from_fen(&r.fen).unwrap();
@@ -211,6 +224,14 @@ pub fn run_sched(ctx: &Ctx, s: &Sched, rep: &mut Report) -> Result<(), Violation
                     }
                 }
             }
+            "go" => {
+                eng.send("go depth 1");
+                order.push("go(second)".into());
+                optional_best += 1;
+                eng.send("stop");
+                stop_sent_at = Some(eng.now());
+                order.push("stop".into());
+            }
             "position" => {
                 // a different position while the search runs: must not affect the running search's answer
                 eng.send("position startpos moves e2e4 e7e5");
@@ -246,7 +267,7 @@ pub fn run_sched(ctx: &Ctx, s: &Sched, rep: &mut Report) -> Result<(), Violation
                     order.push("bestmove".into());
                 }
                 other => {
-                    let refused = eng.stderr_lines().iter().any(|e| e.line.contains("already running"));
+                    let refused = optional_best == 0 && eng.stderr_lines().iter().any(|e| e.line.contains("already running"));
                     let panicked = other.as_ref().map_or(false, |e| e.stream == Stream::Err);
                     let kind = if refused {
                         "go-refused"
@@ -277,7 +298,19 @@ pub fn run_sched(ctx: &Ctx, s: &Sched, rep: &mut Report) -> Result<(), Violation
             }
         }
         let mv = got_best.unwrap();
-        if pos.find_legal(&mv).is_none() {
+        let terminal = pos.legal_moves().is_empty();
+        if terminal {
+            rep.class("round:finished-game(bestmove content not judged)");
+        }
+        if r.action == "go" {
+            // if the engine queued the second go instead of refusing it, let it finish
+            if let Some(e) = eng.wait_for(Duration::from_millis(300) + slack, |e| is_best(e) || e.eof) {
+                if is_best(&e) {
+                    seen_optional += 1;
+                }
+            }
+        }
+        if !terminal && pos.find_legal(&mv).is_none() {
             return Err(fail("legal", format!("legal/illegal-bestmove/{}", r.action), format!("round {}: bestmove {mv} is not legal in the position current when go was sent ({})", ri + 1, r.fen), &eng));
         }
         if r.action == "position" {
@@ -288,7 +321,7 @@ pub fn run_sched(ctx: &Ctx, s: &Sched, rep: &mut Report) -> Result<(), Violation
         rep.class(&format!("action:{}", r.action));
     }
     // no command of a conformant script may have been refused
-    if eng.stderr_lines().iter().any(|e| e.line.contains("already running")) {
+    if optional_best == 0 && eng.stderr_lines().iter().any(|e| e.line.contains("already running")) {
         return Err(fail("not-dropped", "not-dropped/go-refused".into(), "the engine refused a go ('Search is already running') although every go was sent after the previous bestmove".into(), &eng));
     }
     if !eng.ready(Duration::from_secs(2) + slack) {
@@ -296,7 +329,8 @@ pub fn run_sched(ctx: &Ctx, s: &Sched, rep: &mut Report) -> Result<(), Violation
     }
     eng.settle(Duration::from_millis(20));
     let n_best = eng.stdout_lines().iter().filter(|e| e.line.starts_with("bestmove")).count();
-    if n_best != s.rounds.len() {
+    let _ = seen_optional;
+    if n_best < s.rounds.len() || n_best > s.rounds.len() + optional_best {
         return Err(fail("one-bestmove", "one-bestmove/count".into(), format!("{} go commands, {n_best} bestmove lines", s.rounds.len()), &eng));
     }
     // realised interleaving: labels and commands in the order they happened
@@ -351,6 +385,17 @@ pub fn fixed_schedules() -> Vec<Sched> {
         Sched { window: "search:post_best".into(), sleep_ms: 300, rounds: vec![rd("go depth 3", "bestmove", "none"), rd("go depth 3", "bestmove", "none"), rd("go nodes 3000", "none", "none")] },
         Sched { window: "search:pre_best".into(), sleep_ms: 150, rounds: vec![rd("go movetime 300", "label:search:pre_best", "stop"), rd("go depth 3", "none", "none")] },
         Sched { window: "uci:spawned".into(), sleep_ms: 150, rounds: vec![rd("go infinite", "label:uci:spawned", "stop")] },
+        // a second go while searching, then stop; the next conformant go must be accepted
+        Sched { window: "search:iter1".into(), sleep_ms: 50, rounds: vec![rd("go infinite", "label:search:iter1", "go"), rd("go depth 2", "none", "none")] },
+        // a finished game (fool's mate) answered, next go right after its bestmove
+        Sched {
+            window: "search:post_best".into(),
+            sleep_ms: 300,
+            rounds: vec![
+                Round { position: "position startpos moves f2f3 e7e5 g2g4 d8h4".into(), fen: "rnb1kbnr/pppp1ppp/8/4p3/6Pq/5P2/PPPPP2P/RNBQKBNR w KQkq - 1 3".into(), go: "go depth 2".into(), trigger: "bestmove".into(), action: "none".into() },
+                rd("go depth 2", "none", "none"),
+            ],
+        },
     ]
 }
 
@@ -410,7 +455,7 @@ pub fn replay(ctx: &Ctx, case: &Value) -> Report {
 }
 
 pub const LEVEL: &str = "exploration";
-pub const RULE: &str = "schedules against the real engine binary built with the cfg(rce_verif) schedule points: one labelled point (search:enter, search:armed, search:iter1, search:pre_best, search:post_best, uci:spawned) holds its window open for 50/150/300 ms, all points are traced; 1..3 rounds of (position, go {infinite | movetime 300 | nodes N | depth 3 | clocks}, trigger {when a label is seen | when the bestmove is seen | plain delay 0/5/50 ms | none}, action {stop | isready | position | none}); the GUI side stays protocol-conformant (a new go only after the previous bestmove). Plus 8 fixed schedules for the interleavings the statement names. Oracle: every go => exactly one bestmove, legal in the position current when that go was sent; after stop the bestmove arrives within 1 s + injected sleeps; every isready => readyok within 2 s + sleeps; no go of a conformant script is refused. Non-trivial = the realised trace shows a command sent directly after the forced window's label (i.e. inside the window); distinct by realised order of labels, commands and bestmoves.";
+pub const RULE: &str = "schedules against the real engine binary built with the cfg(rce_verif) schedule points: one labelled point (search:enter, search:armed, search:iter1, search:pre_best, search:post_best, uci:spawned) holds its window open for 50/150/300 ms, all points are traced; 1..3 rounds of (position, go {infinite | movetime 300 | nodes N | depth 3 | clocks}, trigger {when a label is seen | when the bestmove is seen | plain delay 0/5/50 ms | none}, action {stop | isready | position | none}); the GUI side stays protocol-conformant (a new go only after the previous bestmove). Occasionally the first go of a round is followed by a second go while the search still runs (its own fate is not judged; the stop after it must work) and a round may search a finished game (exactly one bestmove line, content not judged). Plus 10 fixed schedules for the interleavings the statement names. Oracle: every go => exactly one bestmove, legal in the position current when that go was sent; after stop the bestmove arrives within 1 s + injected sleeps; every isready => readyok within 2 s + sleeps; no go of a conformant script is refused. Non-trivial = the realised trace shows a command sent directly after the forced window's label (i.e. inside the window); distinct by realised order of labels, commands and bestmoves.";
 pub const ASSUMPTIONS: &[&str] = &[
     "the labelled schedule points are the events the property names; orders that need a window at an unlabelled point are not reached",
     "all deadlines include the injected sleeps and a missing answer is a failure under any timing, so forcing a window cannot create a false alarm",
